@@ -55,7 +55,7 @@ func usage() {
 
 type commonFlags struct {
 	root, verif, overlay, tags string
-	noEvidence               bool
+	noEvidence                 bool
 }
 
 func (cf *commonFlags) bind(fs *flag.FlagSet) {
